@@ -83,7 +83,7 @@ def dynstep(name, mode, s1, s2, s3, kmax=4, vmax=1, idxl=10, eps=1, epsrec=1, ti
     d = dict(DMODE=mode, S1MAX=s1, S2MAX=s2, S3MAX=s3, LCAP=max(s1, s2, s3, 1), NLEV=3, KMAX=kmax, VMAX=vmax, BASE=2, BUFL=1, IDXL=idxl, EPS=eps, EPSREC=epsrec,
              MAXOUT=kmax + 1, VERIF_VEC_CAP=12, VERIF_VECVEC_CAP=36, VERIF_SET_CAP=kmax + 2)
     return dict(name=name, unit='dyn_step.cpp', harness='h_dyn_step.c', defs=d, narrow=16, timeout=timeout, tiers=tiers, mem_gb=mem_gb,
-                bounds='INDUCTIVE STEP: ' + ['find/count/lower_bound', 'begin()..end() traversal', 'LSM invariants', 'size/empty/range', '', 'find'][mode] +
+                bounds='INDUCTIVE STEP: ' + ['find/count/lower_bound', 'begin()..end() traversal', 'LSM invariants', 'size/empty/range', '', 'find', 'range(lo,hi)'][mode] +
                        ' after ONE insert_or_assign/erase from ANY state satisfying the LSM invariant with used_levels 1..4, buffer <= %d, next level <= %d, '
                        'third level <= %d entries (tombstones anywhere), keys 0..%d, values 0..%d; base=2, buffer_level=1 (buffer of 3, then 4, 8), index_level=%d'
                        % (s1, s2, s3, kmax, vmax, idxl))
@@ -166,7 +166,7 @@ JOBS['C05'] = [dyn('dyn_q_noidx_b0_o2', 0, 0, 2, idxl=10), dyn('dyn_q_noidx_b0_o
 JOBS['C06'] = [dyn('dyn_it_noidx_b0_o2', 1, 0, 2, idxl=10), dyn('dyn_rng_noidx_b0_o2', 3, 0, 2, idxl=10), dyn('dyn_lbit_noidx_b0_o2', 4, 0, 2, idxl=10), dyn('dyn_it_noidx_b0_o4', 1, 0, 4, idxl=10, tiers=T, timeout=3000)]
 JOBS['C15'] = [dyn('dyn_inv_noidx_b0_o2', 2, 0, 2, idxl=10), dyn('dyn_inv_noidx_b0_o3', 2, 0, 3, idxl=10), dyn('dyn_inv_noidx_b0_o4', 2, 0, 4, idxl=10, tiers=T, timeout=3000, mem_gb=40)]
 JOBS['C05'] += [dynstep('dynstep_find_310', 5, 3, 1, 0, timeout=1500), dynstep('dynstep_find_311', 5, 3, 1, 1, timeout=1500), dynstep('dynstep_q_310', 0, 3, 1, 0, tiers=T, timeout=3000), dynstep('dynstep_q_321', 0, 3, 2, 1, tiers=T, timeout=3000, mem_gb=40)]
-JOBS['C06'] += [dynstep('dynstep_it_310', 1, 3, 1, 0, tiers=T, timeout=3000, mem_gb=40), dynstep('dynstep_rng_310', 3, 3, 1, 0, tiers=T, timeout=3000, mem_gb=40)]
+JOBS['C06'] += [dynstep('dynstep_range_310', 6, 3, 1, 0, timeout=1500), dynstep('dynstep_it_310', 1, 3, 1, 0, tiers=T, timeout=3000, mem_gb=40), dynstep('dynstep_rng_310', 3, 3, 1, 0, tiers=T, timeout=3000, mem_gb=40)]
 JOBS['C15'] += [dynstep('dynstep_inv_322', 2, 3, 2, 2)]
 JOBS['C11'] = [mapped('mapped_u8_n2', 'uint8_t', 2), mapped('mapped_i8_n2', 'int8_t', 2), mapped('mapped_u8_n3_dense', 'uint8_t', 3, ord_hi=3), mapped('mapped_i8_n3', 'int8_t', 3, tiers=T, timeout=3000)]
 
